@@ -1,6 +1,7 @@
-(* C08, part 1: equality tests, the trie (lookup / nodes / children / ls), the decider table. *)
+(* C08, part 1: equality tests, the trie (lookup / nodes / children / ls), and the
+   characterisation table of the GENERATED deciders (Gen/IDiff.v). *)
 From Coq Require Import NArith List Bool Arith Lia Permutation.
-From DvcData Require Import Base.Val Model.Trie Model.IndexDiff.
+From DvcData Require Import Base.Val Base.PyBase Gen.PyTypes Gen.IDiff Model.Trie Model.IndexDiff.
 Import ListNotations.
 Open Scope N_scope.
 
@@ -16,30 +17,81 @@ Qed.
 Lemma bool_eqb_spec a b : Bool.eqb a b = true <-> a = b.
 Proof. destruct a, b; simpl; split; congruence. Qed.
 
-Lemma meta_eqb_spec a b : meta_eqb a b = true <-> a = b.
+(* attrs equality looks at the eq=True fields only: it is equality of these projections *)
+Definition meta_eqkey (m : meta) :=
+  (m_isdir m, m_size m, m_nfiles m, m_isexec m, m_version_id m, m_etag m, m_checksum m, m_md5 m,
+   m_inode m, m_mtime m).
+Definition hashinfo_eqkey (h : hashinfo) := (hi_name h, hi_value h).
+
+Lemma meta_eqb_spec a b : meta_eqb a b = true <-> meta_eqkey a = meta_eqkey b.
 Proof.
-  unfold meta_eqb. repeat rewrite andb_true_iff.
+  unfold meta_eqb, meta_eqkey. repeat rewrite andb_true_iff.
   rewrite !bool_eqb_spec, !(opt_eqb_spec N.eqb N.eqb_eq), !(opt_eqb_spec list_N_eqb list_N_eqb_spec).
-  destruct a, b; simpl. split.
+  split.
   - intros [[[[[[[[[-> ->] ->] ->] ->] ->] ->] ->] ->] ->]. reflexivity.
   - intros E. injection E as -> -> -> -> -> -> -> -> -> ->. repeat split.
 Qed.
 
-Lemma hashinfo_eqb_spec a b : hashinfo_eqb a b = true <-> a = b.
+Lemma hashinfo_eqb_spec a b : hashinfo_eqb a b = true <-> hashinfo_eqkey a = hashinfo_eqkey b.
 Proof.
-  unfold hashinfo_eqb. rewrite andb_true_iff, !(opt_eqb_spec list_N_eqb list_N_eqb_spec).
-  destruct a, b; simpl. split.
+  unfold hashinfo_eqb, hashinfo_eqkey. rewrite andb_true_iff, !(opt_eqb_spec list_N_eqb list_N_eqb_spec).
+  split.
   - intros [-> ->]. reflexivity.
   - intros E. injection E as -> ->. split; reflexivity.
 Qed.
 
-Lemma key_eqb_spec a b : key_eqb a b = true <-> a = b.
+(* a boolean relation that is "equality of a projection" is an equivalence *)
+Section ProjEq.
+  Context {A K : Type} (eqb : A -> A -> bool) (pr : A -> K).
+  Hypothesis Hspec : forall a b, eqb a b = true <-> pr a = pr b.
+  Lemma proj_eqb_refl a : eqb a a = true.
+  Proof. now apply Hspec. Qed.
+  Lemma proj_eqb_sym a b : eqb a b = eqb b a.
+  Proof.
+    destruct (eqb a b) eqn:E1, (eqb b a) eqn:E2; try reflexivity.
+    - apply Hspec in E1. symmetry in E1. apply Hspec in E1. congruence.
+    - apply Hspec in E2. symmetry in E2. apply Hspec in E2. congruence.
+  Qed.
+  Lemma proj_eqb_trans a b c : eqb a b = true -> eqb b c = true -> eqb a c = true.
+  Proof. rewrite !Hspec. congruence. Qed.
+End ProjEq.
+
+Definition opt_pr {A K} (pr : A -> K) (o : option A) : option K := option_map pr o.
+Lemma opt_eqb_proj {A K} (eqb : A -> A -> bool) (pr : A -> K) :
+  (forall a b, eqb a b = true <-> pr a = pr b) ->
+  forall a b, opt_eqb eqb a b = true <-> opt_pr pr a = opt_pr pr b.
 Proof.
-  revert b; induction a as [|x a IH]; intros [|y b]; simpl; split; intros E;
-    try reflexivity; try discriminate.
-  - apply andb_true_iff in E as [E1 E2]. apply list_N_eqb_spec in E1. apply IH in E2. congruence.
-  - injection E as -> ->. apply andb_true_iff. split; [now apply list_N_eqb_spec | now apply IH].
+  intros H [a|] [b|]; simpl; split; intros E; try discriminate; try reflexivity.
+  - apply H in E. now rewrite E.
+  - injection E as E. now apply H.
 Qed.
+
+Definition opt_meta_eqb_spec := opt_eqb_proj meta_eqb meta_eqkey meta_eqb_spec.
+Definition opt_hi_eqb_spec := opt_eqb_proj hashinfo_eqb hashinfo_eqkey hashinfo_eqb_spec.
+
+Lemma opt_meta_eqb_refl m : opt_eqb meta_eqb m m = true.
+Proof. exact (proj_eqb_refl _ _ opt_meta_eqb_spec m). Qed.
+Lemma opt_hi_eqb_refl h : opt_eqb hashinfo_eqb h h = true.
+Proof. exact (proj_eqb_refl _ _ opt_hi_eqb_spec h). Qed.
+Lemma opt_meta_eqb_sym a b : opt_eqb meta_eqb a b = opt_eqb meta_eqb b a.
+Proof. exact (proj_eqb_sym _ _ opt_meta_eqb_spec a b). Qed.
+Lemma opt_hi_eqb_sym a b : opt_eqb hashinfo_eqb a b = opt_eqb hashinfo_eqb b a.
+Proof. exact (proj_eqb_sym _ _ opt_hi_eqb_spec a b). Qed.
+Lemma opt_hi_eqb_trans a b c :
+  opt_eqb hashinfo_eqb a b = true -> opt_eqb hashinfo_eqb b c = true -> opt_eqb hashinfo_eqb a c = true.
+Proof. exact (proj_eqb_trans _ _ opt_hi_eqb_spec a b c). Qed.
+
+Lemma list_eqb_spec {A} (eqb : A -> A -> bool) :
+  (forall a b, eqb a b = true <-> a = b) -> forall a b, list_eqb eqb a b = true <-> a = b.
+Proof.
+  intros H a. induction a as [|x a IH]; intros [|y b]; simpl; split; intros E;
+    try reflexivity; try discriminate.
+  - apply andb_true_iff in E as [E1 E2]. apply H in E1. apply IH in E2. congruence.
+  - injection E as -> ->. apply andb_true_iff. split; [now apply H | now apply IH].
+Qed.
+
+Lemma key_eqb_spec (a b : key) : key_eqb a b = true <-> a = b.
+Proof. apply list_eqb_spec, list_N_eqb_spec. Qed.
 
 Lemma key_eqb_refl k : key_eqb k k = true.
 Proof. now apply key_eqb_spec. Qed.
@@ -117,7 +169,7 @@ Qed.
 
 Lemma is_node_prefix i k s : is_node i (k ++ s) = true -> is_node i k = true.
 Proof.
-  destruct k as [|x k]; [reflexivity|]. simpl. apply has_node_prefix.
+  destruct k as [|x k]; [reflexivity|]. exact (has_node_prefix i (x :: k) s).
 Qed.
 
 Lemma lookup_In i k e : lookup i k = Some e -> In (k, e) i.
@@ -170,7 +222,7 @@ Lemma child_nodes_spec i p c :
   In c (child_nodes i p) <-> exists n, c = p ++ [n] /\ has_node i c = true.
 Proof.
   unfold child_nodes. rewrite In_dedup, in_flat_map. split.
-  - intros [[k' e] [Hin Hc]]. unfold child_toward in Hc. simpl in Hc.
+  - intros [[k' e] [Hin Hc]]. unfold child_toward in Hc. cbn [fst] in Hc.
     destruct (is_prefix p k' && (length p <? length k')%nat) eqn:E; [|destruct Hc].
     apply andb_true_iff in E as [E1 E2]. apply is_prefix_spec in E1 as [s ->].
     apply Nat.ltb_lt in E2. rewrite app_length in E2.
@@ -178,8 +230,8 @@ Proof.
     destruct Hc as [<-|[]]. rewrite firstn_snoc. exists n. split; [reflexivity|].
     apply has_node_spec. exists (p ++ n :: s), e, s. split; [assumption|]. now rewrite <- app_assoc.
   - intros [n [-> Hn]]. apply has_node_spec in Hn as [k' [e [s [Hin ->]]]].
-    exists ((p ++ [n]) ++ s, e). split; [assumption|]. unfold child_toward. simpl.
-    rewrite <- app_assoc. simpl.
+    exists ((p ++ [n]) ++ s, e). split; [assumption|]. unfold child_toward. cbn [fst].
+    rewrite <- app_assoc. cbn [app].
     assert (E1 : is_prefix p (p ++ n :: s) = true) by (apply is_prefix_spec; now exists (n :: s)).
     assert (E2 : (length p <? length (p ++ n :: s))%nat = true)
       by (apply Nat.ltb_lt; rewrite app_length; simpl; lia).
@@ -212,22 +264,6 @@ Proof.
   unfold union_keys. rewrite in_app_iff, filter_In, negb_true_iff, mem_key_false.
   destruct (in_dec key_eq_dec k (map fst oi)); tauto.
 Qed.
-
-Lemma union_keys_NoDup oi ni : NoDup (map fst oi) -> NoDup (map fst ni) -> NoDup (union_keys oi ni).
-Proof.
-  intros H1 H2. unfold union_keys.
-  assert (Hf : NoDup (filter (fun k => negb (mem_key k (map fst oi))) (map fst ni))) by now apply NoDup_filter.
-  revert Hf. generalize (map fst ni) as l2. intros l2 Hf.
-  induction H1 as [|x l Hx Hl IH]; simpl; [assumption|].
-  constructor.
-  - rewrite in_app_iff, filter_In, negb_true_iff, mem_key_false. intros [H|[_ H]]; [contradiction|].
-    apply H. now left.
-  - (* the filter for x :: l is a sub-filter of the filter for l *)
-    clear IH.
-    assert (forall l2, NoDup l2 -> (forall k, In k l2 -> ~ In k l) -> NoDup (l ++ l2)) as Happ.
-    { clear. intros l2 H2 Hd. induction l as [|a l IH]; simpl; [assumption|]. }
-    exact I.
-Abort.
 
 Lemma NoDup_app_intro {A} (l1 l2 : list A) :
   NoDup l1 -> NoDup l2 -> (forall x, In x l1 -> In x l2 -> False) -> NoDup (l1 ++ l2).
@@ -262,7 +298,7 @@ Lemma nodes_spec i k : In k (nodes i) <-> is_node i k = true.
 Proof.
   unfold nodes. rewrite In_dedup. simpl. rewrite in_flat_map. split.
   - intros [<-|[[k' e] [Hin Hp]]]; [reflexivity|]. simpl in Hp. apply prefixes_spec in Hp as [s ->].
-    destruct k; [reflexivity|]. simpl. apply has_node_spec. now exists ((l :: k) ++ s), e, s.
+    destruct k as [|x k]; [reflexivity|]. simpl. apply has_node_spec. now exists ((x :: k) ++ s), e, s.
   - destruct k as [|x k]; [now left|]. simpl. intros H. right.
     apply has_node_spec in H as [k' [e [s [Hin ->]]]]. exists ((x :: k) ++ s, e). split; [assumption|].
     simpl fst. apply prefixes_spec. now exists s.
@@ -290,14 +326,14 @@ Lemma is_node_length i k : is_node i k = true -> (length k <= maxlen i)%nat.
 Proof. destruct k; [simpl; lia|]. apply has_node_length. Qed.
 
 (* ---- get_info ------------------------------------------------------------------------------------------ *)
-Lemma norm_meta_hash e : e_hash (norm_meta e) = e_hash e.
-Proof. unfold norm_meta. destruct (e_meta e); [reflexivity|]. destruct (hi_truthy (e_hash e)); reflexivity. Qed.
+Lemma norm_meta_hash e : e_hash_info (norm_meta e) = e_hash_info e.
+Proof. unfold norm_meta. destruct (e_meta e); [reflexivity|]. destruct (hi_truthy (e_hash_info e)); reflexivity. Qed.
 
 Lemma norm_meta_idem e : norm_meta (norm_meta e) = norm_meta e.
 Proof.
-  unfold norm_meta at 2. destruct (e_meta e) eqn:Em.
-  - unfold norm_meta. now rewrite Em.
-  - destruct (hi_truthy (e_hash e)) eqn:Eh; [reflexivity|]. unfold norm_meta. now rewrite Em, Eh.
+  unfold norm_meta. destruct (e_meta e) eqn:Em.
+  - now rewrite Em.
+  - destruct (hi_truthy (e_hash_info e)) eqn:Eh; cbn; [reflexivity | now rewrite Em, Eh].
 Qed.
 
 Lemma info_entry_get_info i k : info_entry (get_info i k) = option_map norm_meta (lookup i k).
@@ -312,7 +348,80 @@ Proof.
   - destruct (is_node i k); reflexivity.
 Qed.
 
-(* ---- the decider table ---------------------------------------------------------------------------------- *)
+(* ---- the decider table: the GENERATED deciders equal their readable specification ----------------- *)
+Definition ent_hash (e : option ientry) : option hashinfo := match e with Some x => e_hash_info x | None => None end.
+Definition ent_meta (e : option ientry) : option meta := match e with Some x => e_meta x | None => None end.
+
+Definition spec_diff_meta (old new : option meta) (cmp : cmp_key) : typ :=
+  match old, new with
+  | None, Some _ => Add
+  | Some _, None => Delete
+  | _, _ => match cmp with
+            | None => if opt_eqb meta_eqb old new then Unchanged else Modify
+            | Some f => if N.eqb (f old) (f new) then Unchanged else Modify
+            end
+  end.
+
+Definition spec_diff_hash_info (old new : option hashinfo) : typ :=
+  match hi_truthy old, hi_truthy new with
+  | false, true => Add
+  | true, false => Delete
+  | true, true => if opt_eqb hashinfo_eqb old new then Unchanged else Modify
+  | false, false => Unchanged
+  end.
+
+Definition spec_diff_entry (old new : option ientry) (hash_only meta_only : bool) (cmp : cmp_key)
+           (unknown : bool) : typ :=
+  if unknown then Unknown else
+  let md := spec_diff_meta (ent_meta old) (ent_meta new) cmp in
+  let hd := spec_diff_hash_info (ent_hash old) (ent_hash new) in
+  if meta_only then md else
+  if hash_only then hd else
+  match old, new with
+  | None, Some _ => Add
+  | Some _, None => Delete
+  | None, None => Unchanged
+  | Some a, Some b =>
+      if is_none (e_meta a) && is_none (e_meta b) then hd
+      else if negb (hi_truthy (e_hash_info a)) && negb (hi_truthy (e_hash_info b)) then md
+      else if typ_eqb md Unchanged && typ_eqb hd Unchanged then Unchanged else Modify
+  end.
+
+Ltac break_ifs := repeat match goal with |- context [if ?b then _ else _] => destruct b eqn:? end.
+Ltac atoms := repeat match goal with
+  | |- context [N.eqb ?a ?b] => destruct (N.eqb a b) eqn:?
+  | |- context [meta_eqb ?a ?b] => destruct (meta_eqb a b) eqn:?
+  | |- context [hashinfo_eqb ?a ?b] => destruct (hashinfo_eqb a b) eqn:?
+  end.
+Ltac fin := try reflexivity; try (cbn in *; congruence);
+  try (match goal with H : N.eqb ?x ?x = false |- _ => rewrite N.eqb_refl in H; discriminate end).
+
+Lemma diff_meta_table old new c : diff_meta old new c = spec_diff_meta old new c.
+Proof.
+  destruct old, new, c; cbn; try reflexivity; break_ifs; fin.
+Qed.
+
+Lemma diff_hash_info_table old new : diff_hash_info old new = spec_diff_hash_info old new.
+Proof.
+  destruct old as [[n [[|x v]|] o]|], new as [[n' [[|x' v']|] o']|]; cbn; try reflexivity;
+    break_ifs; fin.
+Qed.
+
+Lemma diff_entry_table old new h m c u : diff_entry old new h m c u = spec_diff_entry old new h m c u.
+Proof.
+  unfold diff_entry, spec_diff_entry. cbv zeta.
+  fold (ent_meta old) (ent_meta new) (ent_hash old) (ent_hash new).
+  rewrite !diff_meta_table, !diff_hash_info_table.
+  destruct u; [reflexivity|]. destruct m; [reflexivity|]. destruct h; [reflexivity|].
+  destruct old as [a|], new as [b|]; cbn [ent_meta ent_hash ichange_eqb negb]; try reflexivity.
+  - unfold spec_diff_meta, spec_diff_hash_info, hi_truthy.
+    destruct (e_meta a) as [ma|], (e_meta b) as [mb|], c as [f|];
+    destruct (e_hash_info a) as [[na [[|xa va]|] oa]|], (e_hash_info b) as [[nb [[|xb vb]|] ob]|];
+      unfold typ_eqb; cbn; try reflexivity; atoms; cbn; fin.
+  - unfold spec_diff_meta, spec_diff_hash_info, hi_truthy; cbn. destruct c; cbn; break_ifs; fin.
+Qed.
+
+(* ---- consequences of the table ------------------------------------------------------------------ *)
 Definition swap_typ (t : typ) : typ :=
   match t with Add => Delete | Delete => Add | x => x end.
 
@@ -325,133 +434,86 @@ Proof. destruct t; reflexivity. Qed.
 Lemma typ_eqb_spec a b : typ_eqb a b = true <-> a = b.
 Proof. destruct a, b; simpl; split; congruence. Qed.
 
-Lemma opt_meta_eqb_refl m : opt_eqb meta_eqb m m = true.
-Proof. now apply (opt_eqb_spec meta_eqb meta_eqb_spec). Qed.
-Lemma opt_hi_eqb_refl h : opt_eqb hashinfo_eqb h h = true.
-Proof. now apply (opt_eqb_spec hashinfo_eqb hashinfo_eqb_spec). Qed.
-Lemma opt_meta_eqb_sym a b : opt_eqb meta_eqb a b = opt_eqb meta_eqb b a.
-Proof. apply eqb_sym_of_spec. apply opt_eqb_spec, meta_eqb_spec. Qed.
-Lemma opt_hi_eqb_sym a b : opt_eqb hashinfo_eqb a b = opt_eqb hashinfo_eqb b a.
-Proof. apply eqb_sym_of_spec. apply opt_eqb_spec, hashinfo_eqb_spec. Qed.
-Lemma list_N_eqb_refl l : list_N_eqb l l = true.
-Proof. now apply list_N_eqb_spec. Qed.
-Lemma list_N_eqb_sym a b : list_N_eqb a b = list_N_eqb b a.
-Proof. apply eqb_sym_of_spec, list_N_eqb_spec. Qed.
-
-Lemma diff_meta_refl m c : diff_meta m m c = Unchanged.
+Lemma spec_diff_meta_refl m c : spec_diff_meta m m c = Unchanged.
 Proof.
-  unfold diff_meta. destruct m; simpl.
-  - rewrite (proj2 (meta_eqb_spec m m) eq_refl). destruct c; simpl; [now rewrite list_N_eqb_refl | reflexivity].
-  - destruct c; simpl; [now rewrite list_N_eqb_refl | reflexivity].
+  unfold spec_diff_meta. destruct m, c; try rewrite N.eqb_refl; try rewrite opt_meta_eqb_refl; reflexivity.
 Qed.
 
-Lemma diff_meta_swap a b c : diff_meta b a c = swap_typ (diff_meta a b c).
+Lemma spec_diff_meta_swap a b c : spec_diff_meta b a c = swap_typ (spec_diff_meta a b c).
 Proof.
-  unfold diff_meta. destruct a as [a|], b as [b|]; simpl; try reflexivity.
-  - rewrite (eqb_sym_of_spec meta_eqb meta_eqb_spec b a).
-    destruct c as [f|]; simpl.
-    + rewrite (list_N_eqb_sym (f (Some b))). destruct (list_N_eqb (f (Some a)) (f (Some b))); reflexivity.
-    + destruct (meta_eqb a b); reflexivity.
-  - destruct c as [f|]; simpl; [now rewrite list_N_eqb_refl | reflexivity].
+  unfold spec_diff_meta. rewrite (opt_meta_eqb_sym b a).
+  destruct a as [a|], b as [b|], c as [f|]; try reflexivity;
+    try (rewrite (N.eqb_sym (f _) (f _))); break_ifs; reflexivity.
 Qed.
 
-Lemma diff_hash_info_refl h : diff_hash_info h h = Unchanged.
-Proof.
-  unfold diff_hash_info. rewrite opt_hi_eqb_refl. destruct (hi_truthy h); reflexivity.
-Qed.
+Lemma spec_diff_hash_info_refl h : spec_diff_hash_info h h = Unchanged.
+Proof. unfold spec_diff_hash_info. rewrite opt_hi_eqb_refl. destruct (hi_truthy h); reflexivity. Qed.
 
-Lemma diff_hash_info_swap a b : diff_hash_info b a = swap_typ (diff_hash_info a b).
+Lemma spec_diff_hash_info_swap a b : spec_diff_hash_info b a = swap_typ (spec_diff_hash_info a b).
 Proof.
-  unfold diff_hash_info. rewrite (opt_hi_eqb_sym b a).
+  unfold spec_diff_hash_info. rewrite (opt_hi_eqb_sym b a).
   destruct (hi_truthy a), (hi_truthy b), (opt_eqb hashinfo_eqb a b); reflexivity.
 Qed.
 
-Lemma diff_meta_range a b c : let t := diff_meta a b c in t <> Rename /\ t <> Unknown.
-Proof.
-  unfold diff_meta. destruct (is_none a && is_some b), (is_some a && is_none b),
-    (is_none c && negb (opt_eqb meta_eqb a b)),
-    (match c with Some f => negb (list_N_eqb (f a) (f b)) | None => false end); simpl; split; discriminate.
-Qed.
+Lemma spec_diff_meta_range a b c : let t := spec_diff_meta a b c in t <> Rename /\ t <> Unknown.
+Proof. unfold spec_diff_meta. destruct a, b, c; break_ifs; split; discriminate. Qed.
 
-Lemma diff_hash_info_range a b : let t := diff_hash_info a b in t <> Rename /\ t <> Unknown.
-Proof.
-  unfold diff_hash_info. destruct (hi_truthy a), (hi_truthy b), (opt_eqb hashinfo_eqb a b); simpl; split; discriminate.
-Qed.
+Lemma spec_diff_hash_info_range a b : let t := spec_diff_hash_info a b in t <> Rename /\ t <> Unknown.
+Proof. unfold spec_diff_hash_info. break_ifs; split; discriminate. Qed.
 
-(* Unchanged <-> the components agree *)
-Lemma diff_meta_unchanged_iff a b : diff_meta a b None = Unchanged <-> a = b.
+(* Unchanged <-> the components agree (attrs equality = equality of the eq=True fields) *)
+Lemma diff_meta_unchanged_iff a b : diff_meta a b None = Unchanged <-> opt_eqb meta_eqb a b = true.
 Proof.
-  unfold diff_meta. destruct a as [a|], b as [b|]; simpl; try (split; [discriminate|congruence]).
-  - destruct (meta_eqb a b) eqn:E; simpl.
-    + apply meta_eqb_spec in E. subst. tauto.
-    + split; [discriminate|]. intros [= ->]. rewrite (proj2 (meta_eqb_spec b b) eq_refl) in E. discriminate.
+  rewrite diff_meta_table. unfold spec_diff_meta.
+  destruct a as [a|], b as [b|]; cbn; try (split; [discriminate|congruence]).
+  - destruct (meta_eqb a b); split; congruence.
   - tauto.
 Qed.
 
 Lemma diff_meta_unchanged_cmp a b f :
   diff_meta a b (Some f) = Unchanged <-> (is_none a = is_none b /\ f a = f b).
 Proof.
-  unfold diff_meta. destruct a as [a|], b as [b|]; simpl.
-  - destruct (list_N_eqb (f (Some a)) (f (Some b))) eqn:E; simpl.
-    + apply list_N_eqb_spec in E. tauto.
-    + split; [discriminate|]. intros [_ E']. rewrite E', list_N_eqb_refl in E. discriminate.
+  rewrite diff_meta_table. unfold spec_diff_meta. destruct a as [a|], b as [b|]; cbn.
+  - destruct (N.eqb_spec (f (Some a)) (f (Some b))); split; try tauto; try discriminate.
   - split; [discriminate | intros [? _]; discriminate].
   - split; [discriminate | intros [? _]; discriminate].
-  - rewrite list_N_eqb_refl. simpl. tauto.
+  - rewrite N.eqb_refl. tauto.
 Qed.
 
 Lemma diff_hash_info_unchanged_iff a b :
   diff_hash_info a b = Unchanged <->
-  (hi_truthy a = false /\ hi_truthy b = false) \/ (hi_truthy a = true /\ hi_truthy b = true /\ a = b).
+  (hi_truthy a = false /\ hi_truthy b = false) \/
+  (hi_truthy a = true /\ hi_truthy b = true /\ opt_eqb hashinfo_eqb a b = true).
 Proof.
-  unfold diff_hash_info. destruct (hi_truthy a) eqn:Ea, (hi_truthy b) eqn:Eb; simpl.
-  - destruct (opt_eqb hashinfo_eqb a b) eqn:E; simpl.
-    + apply (opt_eqb_spec hashinfo_eqb hashinfo_eqb_spec) in E. subst. tauto.
-    + split; [discriminate|]. intros [[? _]|[_ [_ ->]]]; [discriminate|]. rewrite opt_hi_eqb_refl in E. discriminate.
-  - split; [discriminate|]. intros [[? _]|[_ [? _]]]; discriminate.
-  - split; [discriminate|]. intros [[_ ?]|[? _]]; discriminate.
-  - tauto.
+  rewrite diff_hash_info_table. unfold spec_diff_hash_info.
+  destruct (hi_truthy a), (hi_truthy b); try destruct (opt_eqb hashinfo_eqb a b); split; try tauto; try discriminate;
+    intros [[? ?]|[? [? ?]]]; discriminate.
 Qed.
 
-Definition ent_hash (e : option ientry) : option hashinfo := match e with Some x => e_hash x | None => None end.
-Definition ent_meta (e : option ientry) : option meta := match e with Some x => e_meta x | None => None end.
-
 Lemma diff_entry_hash_only a b c : diff_entry a b true false c false = diff_hash_info (ent_hash a) (ent_hash b).
-Proof. reflexivity. Qed.
+Proof. now rewrite diff_entry_table, diff_hash_info_table. Qed.
 
 Lemma diff_entry_meta_only a b h c : diff_entry a b h true c false = diff_meta (ent_meta a) (ent_meta b) c.
-Proof. reflexivity. Qed.
+Proof. now rewrite diff_entry_table, diff_meta_table. Qed.
+
+Lemma diff_entry_unknown a b h m c : diff_entry a b h m c true = Unknown.
+Proof. now rewrite diff_entry_table. Qed.
 
 Lemma diff_entry_refl e h m c : diff_entry e e h m c false = Unchanged.
 Proof.
-  unfold diff_entry. rewrite diff_meta_refl, diff_hash_info_refl.
-  destruct e; simpl; destruct m, h; simpl; try reflexivity.
-  - destruct (is_none (e_meta i)); simpl; [reflexivity|]. destruct (negb (hi_truthy (e_hash i))); reflexivity.
+  rewrite diff_entry_table. unfold spec_diff_entry. rewrite spec_diff_meta_refl, spec_diff_hash_info_refl.
+  destruct e; cbn; destruct m, h; cbn; try reflexivity. break_ifs; reflexivity.
 Qed.
 
 Lemma diff_entry_swap a b h m c u : diff_entry b a h m c u = swap_typ (diff_entry a b h m c u).
 Proof.
-  unfold diff_entry. destruct u; [reflexivity|].
-  rewrite (diff_meta_swap (ent_meta a) (ent_meta b)), (diff_hash_info_swap (ent_hash a) (ent_hash b)).
-  fold (ent_meta a) (ent_meta b) (ent_hash a) (ent_hash b).
-  destruct m; [reflexivity|]. destruct h; [reflexivity|].
-  destruct a as [a|], b as [b|]; simpl; try reflexivity.
-  - (* both present *)
-    generalize (diff_meta_range (e_meta a) (e_meta b) c). generalize (diff_hash_info_range (e_hash a) (e_hash b)).
-    pose proof (diff_meta_unchanged_none := I).
-    unfold diff_meta, diff_hash_info.
-    destruct (e_meta a) as [ma|], (e_meta b) as [mb|]; simpl;
-      destruct (hi_truthy (e_hash a)) eqn:Ta, (hi_truthy (e_hash b)) eqn:Tb; simpl;
-      try (destruct (opt_eqb hashinfo_eqb (e_hash a) (e_hash b)); simpl);
-      try (destruct (match c with Some f => negb (list_N_eqb (f (Some ma)) (f (Some mb))) | None => false end);
-           destruct (is_none c && negb (meta_eqb ma mb)); simpl);
-      try (destruct (match c with Some f => negb (list_N_eqb (f None) (f None)) | None => false end);
-           destruct (is_none c && negb true); simpl);
-      intros; try reflexivity.
-  - (* both absent *)
-    unfold diff_meta, diff_hash_info. simpl.
-    destruct (is_none c && negb true), (match c with Some f => negb (list_N_eqb (f None) (f None)) | None => false end);
-      reflexivity.
+  rewrite !diff_entry_table. unfold spec_diff_entry. destruct u; [reflexivity|].
+  rewrite (spec_diff_meta_swap (ent_meta a) (ent_meta b)), (spec_diff_hash_info_swap (ent_hash a) (ent_hash b)).
+  cbv zeta. destruct m; [reflexivity|]. destruct h; [reflexivity|].
+  destruct a as [a|], b as [b|]; cbn [ent_meta ent_hash]; try reflexivity.
+  rewrite !swap_typ_unchanged.
+  rewrite (andb_comm (is_none (e_meta b))), (andb_comm (negb (hi_truthy (e_hash_info b)))).
+  break_ifs; reflexivity.
 Qed.
 
 (* full comparison: Unchanged exactly when presence, metadata and hash all agree *)
@@ -460,70 +522,84 @@ Lemma diff_entry_unchanged_iff a b c :
   (is_none a = is_none b /\ diff_meta (ent_meta a) (ent_meta b) c = Unchanged
    /\ diff_hash_info (ent_hash a) (ent_hash b) = Unchanged).
 Proof.
-  unfold diff_entry. fold (ent_meta a) (ent_meta b) (ent_hash a) (ent_hash b).
-  destruct a as [a|], b as [b|]; simpl.
-  - generalize (diff_meta_range (e_meta a) (e_meta b) c). generalize (diff_hash_info_range (e_hash a) (e_hash b)).
-    simpl.
-    assert (Hm : typ_eqb (diff_meta (e_meta a) (e_meta b) c) Unchanged && is_none (e_meta a) = true ->
-                 diff_meta (e_meta a) (e_meta b) c = Unchanged)
-      by (intros H; apply andb_true_iff in H as [H _]; now apply typ_eqb_spec).
-    destruct (diff_meta (e_meta a) (e_meta b) c) eqn:Em, (diff_hash_info (e_hash a) (e_hash b)) eqn:Eh; simpl;
-      destruct (is_none (e_meta a)), (hi_truthy (e_hash a)); simpl; intros [? ?] [? ?];
-      split; try discriminate; try tauto; try congruence; intros [_ [? ?]]; try discriminate; try congruence.
+  rewrite diff_entry_table, diff_meta_table, diff_hash_info_table. unfold spec_diff_entry. cbv zeta.
+  destruct a as [a|], b as [b|]; cbn [ent_meta ent_hash is_none].
+  - destruct (is_none (e_meta a) && is_none (e_meta b)) eqn:E1.
+    + apply andb_true_iff in E1 as [Ea Eb]. destruct (e_meta a), (e_meta b); try discriminate.
+      rewrite spec_diff_meta_refl. tauto.
+    + destruct (negb (hi_truthy (e_hash_info a)) && negb (hi_truthy (e_hash_info b))) eqn:E2.
+      * apply andb_true_iff in E2 as [Ea Eb]. apply negb_true_iff in Ea, Eb.
+        unfold spec_diff_hash_info. rewrite Ea, Eb. tauto.
+      * destruct (spec_diff_meta (e_meta a) (e_meta b) c), (spec_diff_hash_info (e_hash_info a) (e_hash_info b));
+          cbn; split; try tauto; try discriminate; intros [_ [? ?]]; discriminate.
   - split; [discriminate | intros [? _]; discriminate].
   - split; [discriminate | intros [? _]; discriminate].
-  - rewrite diff_meta_refl, diff_hash_info_refl. simpl. tauto.
+  - rewrite spec_diff_meta_refl, spec_diff_hash_info_refl. tauto.
 Qed.
 
 Lemma diff_entry_one_sided e c :
   diff_entry None (Some e) false false c false = Add /\ diff_entry (Some e) None false false c false = Delete.
-Proof. split; reflexivity. Qed.
+Proof. rewrite !diff_entry_table. split; reflexivity. Qed.
 
 Lemma diff_entry_range a b h m c : let t := diff_entry a b h m c false in t <> Rename /\ t <> Unknown.
 Proof.
-  unfold diff_entry. fold (ent_meta a) (ent_meta b) (ent_hash a) (ent_hash b).
-  generalize (diff_meta_range (ent_meta a) (ent_meta b) c). generalize (diff_hash_info_range (ent_hash a) (ent_hash b)).
-  simpl. intros [? ?] [? ?].
-  destruct m; [split; assumption|]. destruct h; [split; assumption|].
-  destruct (negb (typ_eqb (if is_none a && is_some b then Add else if is_some a && is_none b then Delete else Unchanged) Unchanged)).
-  - destruct (is_none a && is_some b); [split; discriminate|]. destruct (is_some a && is_none b); split; discriminate.
-  - destruct (typ_eqb (diff_meta (ent_meta a) (ent_meta b) c) Unchanged && is_none (ent_meta a)); [split; assumption|].
-    destruct (typ_eqb (diff_hash_info (ent_hash a) (ent_hash b)) Unchanged && negb (hi_truthy (ent_hash a))); [split; assumption|].
-    destruct (typ_eqb (diff_meta (ent_meta a) (ent_meta b) c) (diff_hash_info (ent_hash a) (ent_hash b)) &&
-              typ_eqb (diff_hash_info (ent_hash a) (ent_hash b))
-                (if is_none a && is_some b then Add else if is_some a && is_none b then Delete else Unchanged));
-      split; try assumption; discriminate.
+  cbv zeta. rewrite diff_entry_table. unfold spec_diff_entry. cbv zeta.
+  pose proof (spec_diff_meta_range (ent_meta a) (ent_meta b) c) as Hm.
+  pose proof (spec_diff_hash_info_range (ent_hash a) (ent_hash b)) as Hh. cbv zeta in Hm, Hh.
+  destruct m; [assumption|]. destruct h; [assumption|].
+  destruct a, b; cbn [ent_meta ent_hash] in *; try (split; discriminate).
+  break_ifs; try assumption; split; discriminate.
 Qed.
 
 (* an Add has a new side, a Delete an old side *)
-Lemma diff_meta_add a b c : diff_meta a b c = Add -> is_some b = true.
-Proof.
-  unfold diff_meta. destruct a, b; simpl; try reflexivity; try discriminate.
-  - destruct (is_none c && negb (meta_eqb m m0)); [discriminate|].
-    destruct (match c with Some f => negb (list_N_eqb (f (Some m)) (f (Some m0))) | None => false end); discriminate.
-  - destruct (is_none c && negb true); [discriminate|].
-    destruct (match c with Some f => negb (list_N_eqb (f None) (f None)) | None => false end); discriminate.
-Qed.
-
-Lemma diff_hash_info_add a b : diff_hash_info a b = Add -> hi_truthy b = true.
-Proof.
-  unfold diff_hash_info. destruct (hi_truthy a), (hi_truthy b); simpl; try reflexivity; try discriminate.
-  destruct (opt_eqb hashinfo_eqb a b); discriminate.
-Qed.
-
 Lemma diff_entry_add a b h m c : diff_entry a b h m c false = Add -> is_some b = true.
 Proof.
-  unfold diff_entry. fold (ent_meta a) (ent_meta b) (ent_hash a) (ent_hash b).
-  assert (Hm : diff_meta (ent_meta a) (ent_meta b) c = Add -> is_some b = true).
-  { intros H. apply diff_meta_add in H. destruct b; [reflexivity | discriminate]. }
-  assert (Hh : diff_hash_info (ent_hash a) (ent_hash b) = Add -> is_some b = true).
-  { intros H. apply diff_hash_info_add in H. destruct b; [reflexivity | discriminate]. }
-  destruct m; [assumption|]. destruct h; [assumption|].
-  destruct a, b; simpl; try reflexivity; try discriminate.
-  - rewrite diff_meta_refl, diff_hash_info_refl. simpl. discriminate.
+  rewrite diff_entry_table. unfold spec_diff_entry. cbv zeta.
+  destruct b as [b|]; [reflexivity|]. cbn [ent_meta ent_hash].
+  assert (Hm : spec_diff_meta (ent_meta a) None c <> Add).
+  { unfold spec_diff_meta. destruct (ent_meta a), c; break_ifs; discriminate. }
+  assert (Hh : spec_diff_hash_info (ent_hash a) None <> Add).
+  { unfold spec_diff_hash_info. cbn. break_ifs; discriminate. }
+  destruct m; [contradiction|]. destruct h; [contradiction|]. destruct a; discriminate.
 Qed.
 
 Lemma diff_entry_delete a b h m c : diff_entry a b h m c false = Delete -> is_some a = true.
 Proof.
   intros H. apply (diff_entry_add b a h m c). rewrite diff_entry_swap, H. reflexivity.
+Qed.
+
+(* ---- packaged for Properties/C08.v ------------------------------------------------------------------- *)
+Lemma decider_table :
+  (forall old new c, diff_meta old new c = spec_diff_meta old new c) /\
+  (forall old new, diff_hash_info old new = spec_diff_hash_info old new) /\
+  (forall old new h m c u, diff_entry old new h m c u = spec_diff_entry old new h m c u).
+Proof. repeat split; intros; [apply diff_meta_table | apply diff_hash_info_table | apply diff_entry_table]. Qed.
+
+Lemma decider_props :
+  (forall e h m c, diff_entry e e h m c false = Unchanged) /\
+  (forall a b h m c u, diff_entry b a h m c u = swap_typ (diff_entry a b h m c u)) /\
+  (forall a b c, diff_entry a b false false c false = Unchanged <->
+     (is_none a = is_none b /\ diff_meta (ent_meta a) (ent_meta b) c = Unchanged /\
+      diff_hash_info (ent_hash a) (ent_hash b) = Unchanged)) /\
+  (forall a b, diff_meta a b None = Unchanged <-> opt_eqb meta_eqb a b = true) /\
+  (forall a b f, diff_meta a b (Some f) = Unchanged <-> (is_none a = is_none b /\ f a = f b)) /\
+  (forall a b, diff_hash_info a b = Unchanged <->
+     (hi_truthy a = false /\ hi_truthy b = false) \/
+     (hi_truthy a = true /\ hi_truthy b = true /\ opt_eqb hashinfo_eqb a b = true)) /\
+  (forall a b c, diff_entry a b true false c false = diff_hash_info (ent_hash a) (ent_hash b)) /\
+  (forall a b h c, diff_entry a b h true c false = diff_meta (ent_meta a) (ent_meta b) c) /\
+  (forall a b h m c, diff_entry a b h m c false <> Rename /\ diff_entry a b h m c false <> Unknown) /\
+  (forall a b h m c, (diff_entry a b h m c false = Add -> is_some b = true) /\
+                     (diff_entry a b h m c false = Delete -> is_some a = true)).
+Proof.
+  split; [intros; apply diff_entry_refl|].
+  split; [intros; apply diff_entry_swap|].
+  split; [intros; apply diff_entry_unchanged_iff|].
+  split; [intros; apply diff_meta_unchanged_iff|].
+  split; [intros; apply diff_meta_unchanged_cmp|].
+  split; [intros; apply diff_hash_info_unchanged_iff|].
+  split; [intros; apply diff_entry_hash_only|].
+  split; [intros; apply diff_entry_meta_only|].
+  split; [intros a b h m c; apply (diff_entry_range a b h m c)|].
+  intros; split; [apply diff_entry_add | apply diff_entry_delete].
 Qed.
